@@ -1,13 +1,19 @@
 import Copia.Lemmas.ReconcileTable
 import Copia.Props.C18
 import Copia.Model.Bisync
+import Copia.Lemmas.Bisync11
 /-!
-# C06 — bisync converges, records what it did, and is idempotent (what is proved so far)
+# C06 — bisync converges, records what it did, and is idempotent
 
-Decision-level theorems for all maps: a converged pair with a matching record plans nothing
-(idempotence of the plan), and swapping the roots mirrors the plan. Post-state equations of whole
-runs are tied to the real binary by the history correspondence and the C06 oracles (convergence,
-archive = tree, idempotence probe, mtime scrambling, root swap) of `./check C06`.
+Whole-run theorems for `Bisync.bisync`, for every pair of trees and every archive, under
+`NoNameClash` (no conflict-copy name written by the run is a live path or another entry's name —
+without it the statements are false of model and code alike, D10, reported as known findings):
+`converges` (the run completes; afterwards both sides hold the same content at every path and the
+archive records exactly that tree) and `second_run_noop` (the next run plans nothing, reports no
+conflict and leaves both trees as they are). Decision-level theorems for all maps: a converged pair
+with a matching record plans nothing, and swapping the roots mirrors the plan. The model is tied to
+the real binary by the history correspondence and the C06 oracles (convergence, archive = tree,
+idempotence probe, mtime scrambling, root swap) of `./check C06`.
 -/
 namespace Copia.C06
 open Copia.Reconcile Copia.Bisync Copia.C18
@@ -49,5 +55,52 @@ theorem swap_plan (le : P → P → Bool) (a b base : List (P × Fp C)) (t : Boo
   · rintro ⟨hk, he, hne⟩
     refine ⟨hk.symm, ?_, fun h => hne ((hno act).mpr h)⟩
     rw [mirror, ← he, hsw]
+
+/-- C06 (whole run, all trees, all archives, under NoNameClash): the run completes without an I/O
+stop; afterwards A and B hold the same content at every path, and the archive it writes records
+exactly that tree (path ↦ fingerprint of the content now on both sides, nothing else). -/
+theorem converges (le : P → P → Bool)
+    (trans : ∀ a b c, le a b → le b c → le a c) (total : ∀ a b, le a b || le b a)
+    (antisymm : ∀ a b, le a b → le b a → a = b) (ge : C → C → Bool) (cname : P → C → P) (s : State P C)
+    (nnc : NoNameClash ge cname s.A s.B (bisyncPlan le s)) :
+    (bisync le ge cname s).status ≠ .ioError ∧
+    (∀ q, get (bisync le ge cname s).state.A q = get (bisync le ge cname s).state.B q) ∧
+    ∃ m, (bisync le ge cname s).state.arch = some m ∧
+      ∀ q, lookup m q = (get (bisync le ge cname s).state.A q).map mkFp := by
+  obtain ⟨hact, _, _, hrest⟩ := plan_facts le trans total antisymm s
+  obtain ⟨l, n, hrun, inv, ainv⟩ := bisync_run le trans total antisymm ge cname s nnc
+  rw [bisync_of_run le ge cname s l n hrun]
+  refine ⟨by simp only []; split <;> simp, ?_, l.common, rfl, ?_⟩
+  · exact runInv_converged ge cname s.A s.B (baseOf s) _ l hact hrest inv
+  · exact arch_eq_tree le trans total antisymm ge cname s l inv ainv
+
+/-- C06 (idempotence, whole run): after a run under NoNameClash, the next run plans nothing, reports
+no conflict, and leaves both trees exactly as they are. -/
+theorem second_run_noop (le : P → P → Bool)
+    (trans : ∀ a b c, le a b → le b c → le a c) (total : ∀ a b, le a b || le b a)
+    (antisymm : ∀ a b, le a b → le b a → a = b) (ge : C → C → Bool) (cname : P → C → P) (s : State P C)
+    (nnc : NoNameClash ge cname s.A s.B (bisyncPlan le s)) :
+    let o := bisync le ge cname s
+    bisyncPlan le o.state = [] ∧
+    (bisync le ge cname o.state).status = .ok ∧
+    (bisync le ge cname o.state).state.A = o.state.A ∧ (bisync le ge cname o.state).state.B = o.state.B := by
+  intro o
+  obtain ⟨_, hconv, m, hm, harch⟩ := converges le trans total antisymm ge cname s nnc
+  have hplan : bisyncPlan le o.state = [] := by
+    unfold bisyncPlan
+    show reconcile le (scan o.state.A) (scan o.state.B) (o.state.arch.getD []) o.state.arch.isSome = []
+    have e1 : o.state.arch = some m := hm
+    rw [e1]
+    apply converged_plan_empty
+    intro p
+    refine ⟨?_, fun _ => ?_⟩
+    · rw [lookup_scan, lookup_scan]; exact congrArg _ (hconv p).symm
+    · rw [lookup_scan]; exact harch p
+  have hrun : applyAllPartial ge cname (scan o.state.A) (scan o.state.B) (bisyncPlan le o.state)
+      { A := o.state.A, B := o.state.B, common := common0 o.state } 0 =
+      ({ A := o.state.A, B := o.state.B, common := common0 o.state }, 0, true) := by
+    rw [hplan]; rfl
+  rw [bisync_of_run le ge cname o.state _ 0 hrun]
+  exact ⟨hplan, rfl, rfl, rfl⟩
 
 end Copia.C06
